@@ -13,6 +13,7 @@ import (
 	"fmt"
 	"go/ast"
 	"go/parser"
+	"go/printer"
 	"go/token"
 	"os"
 	"path/filepath"
@@ -160,6 +161,153 @@ func (t *translator) stmts(list []ast.Stmt, recv string) []string {
 	return out
 }
 
+// ---- Remove (work package c13remove) -------------------------------------------------------------------------
+//
+// `Remove` is a mutator like Add / Reset, but not straight-line: it computes locals, returns early under two guards
+// and fills a local `removedShape` in a loop.  mutator() translates such a body into
+//   - the list of SHARED accesses in source order (writes of index fields, the atomic store of status), and
+//   - the list of early returns: (number of shared accesses executed before the guard, text of the guard).
+//
+// Everything else must be provably local: a `:=` of new locals, or an assignment whose root identifier is a local,
+// whose right-hand side calls only read-only helpers (`<recv>.idForShape`, methods of the Shape parameter, make /
+// len / append).  Anything else makes the translator fail.
+type earlyRet struct {
+	n    int
+	cond string
+}
+
+func rootIdent(e ast.Expr) string {
+	switch x := e.(type) {
+	case *ast.Ident:
+		return x.Name
+	case *ast.SelectorExpr:
+		return rootIdent(x.X)
+	case *ast.IndexExpr:
+		return rootIdent(x.X)
+	case *ast.ParenExpr:
+		return rootIdent(x.X)
+	case *ast.StarExpr:
+		return rootIdent(x.X)
+	}
+	return "?"
+}
+
+func (t *translator) exprText(e ast.Node) string {
+	var sb strings.Builder
+	printer.Fprint(&sb, t.fset, e)
+	return strings.Join(strings.Fields(sb.String()), " ")
+}
+
+// pureExpr: e contains no call that could touch shared state and no access of status.
+func (t *translator) pureExpr(e ast.Expr, recv string, params map[string]bool) {
+	ast.Inspect(e, func(n ast.Node) bool {
+		switch x := n.(type) {
+		case *ast.CallExpr:
+			f := sel(x.Fun)
+			ok := f == recv+".idForShape" || f == "make" || f == "len" || f == "append"
+			if !ok {
+				if se, isSel := x.Fun.(*ast.SelectorExpr); isSel && params[rootIdent(se.X)] && rootIdent(se.X) != recv {
+					ok = true // a method of the Shape parameter (NumEdges, Edge, Dimension, ReferencePoint)
+				}
+			}
+			if !ok {
+				t.fail(x, "mutator: call of "+f+" in a local computation")
+			}
+		case *ast.SelectorExpr:
+			if sel(x) == recv+".status" {
+				t.fail(x, "mutator: plain access of status")
+			}
+		}
+		return true
+	})
+}
+
+func (t *translator) mutator(list []ast.Stmt, recv string, params, locals map[string]bool, out *[]string, rets *[]earlyRet) {
+	for _, st := range list {
+		switch s := st.(type) {
+		case *ast.ExprStmt:
+			c, ok := s.X.(*ast.CallExpr)
+			if !ok {
+				t.fail(s, "mutator: unrecognised expression statement")
+				continue
+			}
+			if sel(c.Fun) == "delete" && len(c.Args) == 2 && sel(c.Args[0]) == recv+".shapes" {
+				t.pureExpr(c.Args[1], recv, params)
+				*out = append(*out, ".writeShapes")
+				continue
+			}
+			*out = append(*out, t.call(c, recv)...)
+		case *ast.AssignStmt:
+			for _, r := range s.Rhs {
+				t.pureExpr(r, recv, params)
+			}
+			for _, l := range s.Lhs {
+				root := rootIdent(l)
+				switch {
+				case s.Tok == token.DEFINE:
+					id, ok := l.(*ast.Ident)
+					if !ok {
+						t.fail(l, "mutator: := of a non-identifier")
+						continue
+					}
+					locals[id.Name] = true
+				case locals[root]:
+					// a write into an object that this call created (removed.edges[e] = …)
+				case root == recv:
+					*out = append(*out, t.write(l, recv)...)
+				default:
+					t.fail(l, "mutator: write to "+t.exprText(l))
+				}
+			}
+		case *ast.IncDecStmt:
+			if !locals[rootIdent(s.X)] {
+				*out = append(*out, t.write(s.X, recv)...)
+			}
+		case *ast.IfStmt:
+			// only:  if <pure condition> { return }
+			okIf := s.Init == nil && s.Else == nil && len(s.Body.List) == 1
+			if okIf {
+				r, isRet := s.Body.List[0].(*ast.ReturnStmt)
+				okIf = isRet && len(r.Results) == 0
+			}
+			if !okIf {
+				t.fail(s, "mutator: unrecognised if statement")
+				continue
+			}
+			t.pureExpr(s.Cond, recv, params)
+			*rets = append(*rets, earlyRet{len(*out), t.exprText(s.Cond)})
+		case *ast.ForStmt:
+			// a loop over locals only: its body may not contain a shared access
+			if as, ok := s.Init.(*ast.AssignStmt); ok && as.Tok == token.DEFINE {
+				for _, l := range as.Lhs {
+					if id, ok := l.(*ast.Ident); ok {
+						locals[id.Name] = true
+					}
+				}
+				for _, r := range as.Rhs {
+					t.pureExpr(r, recv, params)
+				}
+			} else if s.Init != nil {
+				t.fail(s, "mutator: unrecognised loop initialiser")
+			}
+			if s.Cond != nil {
+				t.pureExpr(s.Cond, recv, params)
+			}
+			var inner []string
+			var innerRets []earlyRet
+			if s.Post != nil {
+				t.mutator([]ast.Stmt{s.Post}, recv, params, locals, &inner, &innerRets)
+			}
+			t.mutator(s.Body.List, recv, params, locals, &inner, &innerRets)
+			if len(inner) != 0 || len(innerRets) != 0 {
+				t.fail(s, "mutator: shared access or return inside a loop")
+			}
+		default:
+			t.fail(st, fmt.Sprintf("mutator: unrecognised statement %T", st))
+		}
+	}
+}
+
 func main() {
 	repo := flag.String("repo", "", "path of the golang/geo checkout (default $VERIF_REPO or /repo)")
 	out := flag.String("out", "", "output .lean file, or a directory (then ProtocolIR.lean is written inside); default: stdout")
@@ -219,6 +367,9 @@ func main() {
 	}
 	progs := map[string][]string{}
 	sigs := map[string]string{}
+	var removeProg []string
+	var removeRets []earlyRet
+	removeFound, removeSig := false, ""
 	for _, d := range f.Decls {
 		fd, ok := d.(*ast.FuncDecl)
 		if !ok || fd.Recv == nil || len(fd.Recv.List) != 1 || fd.Body == nil {
@@ -235,6 +386,22 @@ func main() {
 				sigs[w.leanName] = "func (" + recv + " *ShapeIndex) " + fd.Name.Name
 			}
 		}
+		if fd.Name.Name == "Remove" {
+			recv := fd.Recv.List[0].Names[0].Name
+			params := map[string]bool{}
+			for _, fl := range fd.Type.Params.List {
+				for _, id := range fl.Names {
+					params[id.Name] = true
+				}
+			}
+			var prog []string
+			t.mutator(fd.Body.List, recv, params, map[string]bool{}, &prog, &removeRets)
+			removeProg, removeFound = prog, true
+			removeSig = "func (" + recv + " *ShapeIndex) Remove"
+		}
+	}
+	if !removeFound {
+		t.errs = append(t.errs, "method not found: Remove")
 	}
 	for _, w := range want {
 		if _, ok := progs[w.leanName]; !ok {
@@ -253,6 +420,12 @@ func main() {
 	for _, w := range want {
 		fmt.Fprintf(&sb, "\n/-- %s -/\ndef %s : Prog :=\n  [%s]\n", sigs[w.leanName], w.leanName, strings.Join(progs[w.leanName], ", "))
 	}
+	fmt.Fprintf(&sb, "\n/-- %s: the shared accesses in source order (locals, the loop that fills the local `removedShape` and the\n    early returns are not instructions) -/\ndef remove : Prog :=\n  [%s]\n", removeSig, strings.Join(removeProg, ", "))
+	var rs []string
+	for _, r := range removeRets {
+		rs = append(rs, fmt.Sprintf("(%d, %q)", r.n, r.cond))
+	}
+	fmt.Fprintf(&sb, "\n/-- the early returns of Remove: (number of instructions of `remove` executed before the guard, the guard) -/\ndef removeEarlyReturns : List (Nat × String) :=\n  [%s]\n", strings.Join(rs, ", "))
 	sb.WriteString("\nend S2.Generated.ProtocolIR\n")
 	text := sb.String()
 	if *out == "" {
